@@ -2,7 +2,7 @@
 namespace BdModel.Canon.Cron
 
 /-- hash of the normalised skeleton of run (internal/scheduler/scheduler.go) -/
-def h_cron_run : Nat := 0x1f5de6cb37265a58
+def h_cron_run : Nat := 0x05c4fcce2847241e
 
 /-- hash of the normalised skeleton of nextTick (internal/scheduler/scheduler.go) -/
 def h_cron_nextTick : Nat := 0xc09559c4f5bd4ae2
